@@ -322,7 +322,8 @@ def r4(ctx):
     redraw = [n for n in ast.walk(whiles[0]) if isinstance(n, ast.Call) and norm(n.func) == "os.urandom"]
     ctx.check(len(redraw) >= 1, "C10.R4", gt, "a colliding candidate is re-drawn inside the loop")
     rets = [n for n in walk_own(gt.node) if isinstance(n, ast.Return)]
-    ctx.check(len(rets) == 1 and norm(rets[0].value) == "token" and before(gt, whiles[0], rets[0]), "C10.R4", gt, "the token returned is the one that passed the loop")
+    ctx.check(len(rets) == 1 and isinstance(rets[0].value, ast.Name) and rets[0].value.id in names_in_test and before(gt, whiles[0], rets[0]), "C10.R4", gt,
+              "the token returned is the one that passed the loop", witness={"returned": [norm(r.value) for r in rets], "tested": sorted(names_in_test)})
     if len(rets) == 1 and isinstance(rets[0].value, ast.Name):
         tv = rets[0].value.id
         tnodes = [n for n in cfg.nodes if n.kind == "test" and n.stmt is whiles[0]]
